@@ -781,7 +781,17 @@ func genClone(r *rand.Rand, deg int, variant string) vh.Case {
 			for k := range sets[src].m {
 				sets[dst].m[k] = true
 			}
-			rec(fmt.Sprintf("CClone %d%%nat %d%%nat", src, dst), res.coq(), "None", fmt.Sprintf("h%d = h%d.Clone()", dst, src))
+			// right after Clone neither side owns a node: the shape (with ownership flags) of one of the two
+			csh, css := "None", ""
+			if res.kind == "unit" && r.Intn(2) == 0 {
+				which := src
+				if r.Intn(2) == 0 {
+					which = dst
+				}
+				csh, css = optShape(hs[which], true)
+				css = fmt.Sprintf(" (h%d:%s)", which, css)
+			}
+			rec(fmt.Sprintf("CClone %d%%nat %d%%nat", src, dst), res.coq(), csh, fmt.Sprintf("h%d = h%d.Clone()%s", dst, src, css))
 			if r.Intn(3) == 0 {
 				snap()
 			}
@@ -926,7 +936,8 @@ func genCloneFullRoot(r *rand.Rand, deg int) vh.Case {
 	}
 	_, ss := optShape(hs[0], true)
 	hs[1] = hs[0].Clone()
-	rec("CClone 0%nat 1%nat", "OUnit", "None", "h1 = h0.Clone() with the root full:"+ss)
+	csh, _ := optShape(hs[r.Intn(2)], true)
+	rec("CClone 0%nat 1%nat", "OUnit", csh, "h1 = h0.Clone() with the root full:"+ss)
 	write := func(h int) {
 		var o iop
 		switch x := r.Intn(10); {
